@@ -1,4 +1,5 @@
 import Lemmas.EvalTotal
+import Lemmas.EvalInfix
 /-! C09, robustness of `Evaluate`: every argument text stored in a parsed tree is strictly shorter than the input, so the
     nesting of `EvaluateNew` is bounded by the input length; variable substitution with `$`-free answers terminates.
     Core Lean only. -/
@@ -577,5 +578,414 @@ theorem evaluate_no_panic (ops : List Op) (fns : List Bytes) (hne : SymsNonempty
         · contradiction
         · simp
         · simp
+
+/-! ### no hypothesis on the length of the answers of the resolver
+
+    `evaluate_no_panic` asks that no answer is longer than `$name`.  That is not needed:
+    * a text without `$` is left alone by `replaceVariables`, whatever the resolver is, and the tree parsed from it holds
+      pieces of that text only (`parseTop_infix`), so the nesting argument goes through as it is
+      (`evaluate_no_panic_closed`);
+    * for a text with `$` the substituted argument texts hold no `$` (the answers hold none) and are not longer than
+      `|s| * (K + 1)` when each of the variables of `s` grows by at most `K` (`evaluate_no_panic_growth`); some `K` always
+      exists because `s` has finitely many pieces (`evaluate_terminates`). -/
+
+theorem splitDollar_clean (x : Bytes) (h : (36 : Nat) ∉ x) : splitDollar x = none := by
+  induction x with
+  | nil => rfl
+  | cons c t ih =>
+    have hc : (c == 36) = false := by
+      have : c ≠ 36 := fun e => h (by simp [e])
+      simpa using this
+    simp [splitDollar, hc, ih (fun hm => h (by simp [hm]))]
+
+theorem not_mem_of_splitDollar_none (x : Bytes) (h : splitDollar x = none) : (36 : Nat) ∉ x := by
+  induction x with
+  | nil => simp
+  | cons c t ih =>
+    unfold splitDollar at h
+    by_cases hc : (c == 36) = true
+    · simp [hc] at h
+    · simp only [hc] at h
+      cases hr : splitDollar t with
+      | some q => simp [hr] at h
+      | none =>
+        have hc' : ¬ c = 36 := by simpa using hc
+        intro hm
+        rcases List.mem_cons.mp hm with e | e
+        · exact hc' e.symm
+        · exact ih hr e
+
+/-- `replaceVariables` leaves a text without `$` alone — with any resolver, or none -/
+theorem replaceVariables_clean (resolve : Option (Bytes → Bytes)) (x : Bytes) (h : (36 : Nat) ∉ x) :
+    replaceVariables resolve x = .ok x := by
+  unfold replaceVariables
+  simp [replaceVars, splitDollar_clean x h]
+
+/-- the first `$` of a text that starts with a `$`-free part -/
+theorem splitDollar_clean_append (d t : Bytes) (h : (36 : Nat) ∉ d) :
+    splitDollar (d ++ t) = (splitDollar t).map (fun x => (d ++ x.1, x.2)) := by
+  induction d with
+  | nil => cases hs : splitDollar t <;> simp [hs]
+  | cons c r ih =>
+    have hc : (c == 36) = false := by
+      have : c ≠ 36 := fun e => h (by simp [e])
+      simpa using this
+    have ih' := ih (fun hm => h (by simp [hm]))
+    simp only [List.cons_append, splitDollar, hc, ih']
+    cases splitDollar t <;> simp
+
+/-- the loop of `replaceVariables` on `dn ++ td` where `dn` (the part already substituted) holds no `$`: with answers
+    that hold no `$` it ends within one round per `$` of `td`, the result holds no `$`, and it is longer than the text
+    by at most `K` per `$` when `K` bounds the growth for the names that occur in `td` -/
+theorem replaceVars_growth (f : Bytes → Bytes) (hd : ∀ n, (36 : Nat) ∉ f n) (K : Nat) (fuel : Nat) (dn td : Bytes)
+    (hdn : (36 : Nat) ∉ dn) (hK : ∀ n, n <:+: td → (f n).length ≤ n.length + 1 + K) (hf : td.count 36 < fuel) :
+    replaceVars (some f) fuel (dn ++ td) ≠ .panic ∧
+      ∀ r, replaceVars (some f) fuel (dn ++ td) = .ok r →
+        (36 : Nat) ∉ r ∧ r.length ≤ dn.length + td.length + td.count 36 * K := by
+  induction fuel generalizing dn td with
+  | zero => omega
+  | succ n ih =>
+    unfold replaceVars
+    rw [splitDollar_clean_append dn td hdn]
+    cases hs : splitDollar td with
+    | none =>
+      have h36 := not_mem_of_splitDollar_none td hs
+      simp only [Option.map_none]
+      refine ⟨by simp, ?_⟩
+      intro r hr
+      injection hr with hr
+      subst hr
+      refine ⟨?_, ?_⟩
+      · simp [hdn, h36]
+      · simp
+    | some q =>
+      obtain ⟨b, a⟩ := q
+      obtain ⟨e1, e2⟩ := splitDollar_spec td b a hs
+      obtain ⟨e3, e4⟩ := varName_spec 0 a
+      simp only [Option.map_some]
+      split
+      · refine ⟨by simp, ?_⟩; intro r hr; simp at hr
+      · split
+        · refine ⟨by simp, ?_⟩; intro r hr; simp at hr
+        · generalize (varName 0 a).1 = nm at *
+          generalize (varName 0 a).2 = rs at *
+          subst e3
+          subst e1
+          have hb : (36 : Nat) ∉ b := List.count_eq_zero.mp e2
+          have hcnt : (b ++ 36 :: (nm ++ rs)).count 36 = 1 + rs.count 36 := by
+            rw [List.count_append, e2, List.count_cons, List.count_append, e4]
+            simp; omega
+          have hnm : nm <:+: b ++ 36 :: (nm ++ rs) := ⟨b ++ [36], rs, by simp⟩
+          have hrs : rs <:+ b ++ 36 :: (nm ++ rs) := ⟨b ++ 36 :: nm, by simp⟩
+          have hdn' : (36 : Nat) ∉ dn ++ b ++ f nm := by simp [hdn, hb, hd nm]
+          obtain ⟨i1, i2⟩ := ih (dn ++ b ++ f nm) rs hdn' (fun m hm => hK m (hm.trans hrs.isInfix)) (by omega)
+          refine ⟨i1, ?_⟩
+          intro r hr
+          obtain ⟨j1, j2⟩ := i2 r hr
+          refine ⟨j1, ?_⟩
+          have hg := hK nm hnm
+          rw [hcnt, Nat.add_mul, Nat.one_mul]
+          simp only [List.length_append, List.length_cons] at j2 ⊢
+          omega
+
+theorem replaceVariables_growth (resolve : Option (Bytes → Bytes)) (K : Nat) (t : Bytes)
+    (hres : ∀ f, resolve = some f →
+      (∀ n, (36 : Nat) ∉ f n) ∧ (∀ n, n <:+: t → (f n).length ≤ n.length + 1 + K)) :
+    replaceVariables resolve t ≠ .panic ∧
+      ∀ r, replaceVariables resolve t = .ok r → (36 : Nat) ∉ r ∧ r.length ≤ t.length + t.count 36 * K := by
+  unfold replaceVariables
+  cases resolve with
+  | some f =>
+    obtain ⟨hd, hl⟩ := hres f rfl
+    have := replaceVars_growth f hd K (t.count 36 + 1) [] t (by simp) hl (Nat.lt_succ_self _)
+    simpa using this
+  | none =>
+    unfold replaceVars
+    cases hs : splitDollar t with
+    | none =>
+      have h36 := not_mem_of_splitDollar_none t hs
+      refine ⟨by simp, ?_⟩
+      intro r hr; simp at hr; subst hr
+      exact ⟨h36, Nat.le_add_right _ _⟩
+    | some q =>
+      obtain ⟨b, a⟩ := q
+      refine ⟨by simp, ?_⟩
+      intro r hr; simp at hr
+
+/-! ### the argument loop on a text without `$` -/
+
+theorem nextArgGo_split (parens : Int) (args a b : Bytes) (h : nextArgGo parens args = some (a, b)) :
+    args = a ++ 44 :: b := by
+  induction args generalizing parens a b with
+  | nil => simp [nextArgGo] at h
+  | cons c t ih =>
+    unfold nextArgGo at h
+    split at h
+    · cases hr : nextArgGo (parens + 1) t with
+      | none => simp [hr] at h
+      | some q =>
+        obtain ⟨a', b'⟩ := q
+        simp [hr] at h
+        obtain ⟨h1, h2⟩ := h
+        subst h1 h2
+        rw [ih _ _ _ hr]; rfl
+    · split at h
+      · cases hr : nextArgGo (parens - 1) t with
+        | none => simp [hr] at h
+        | some q =>
+          obtain ⟨a', b'⟩ := q
+          simp [hr] at h
+          obtain ⟨h1, h2⟩ := h
+          subst h1 h2
+          rw [ih _ _ _ hr]; rfl
+      · split at h
+        · rename_i hc
+          simp at h hc
+          obtain ⟨h1, h2⟩ := h
+          subst h1 h2
+          simp [hc.1]
+        · cases hr : nextArgGo parens t with
+          | none => simp [hr] at h
+          | some q =>
+            obtain ⟨a', b'⟩ := q
+            simp [hr] at h
+            obtain ⟨h1, h2⟩ := h
+            subst h1 h2
+            rw [ih _ _ _ hr]; rfl
+
+theorem nextArg_clean (args : Bytes) (h : (36 : Nat) ∉ args) :
+    (36 : Nat) ∉ (nextArg args).1 ∧ (36 : Nat) ∉ (nextArg args).2 := by
+  unfold nextArg
+  cases hr : nextArgGo 0 args with
+  | none => simp [h]
+  | some q =>
+    obtain ⟨a, b⟩ := q
+    have e := nextArgGo_split _ _ _ _ hr
+    simp only []
+    rw [e] at h
+    simp at h
+    exact h
+
+theorem evalArgs_no_panic_clean (ev : Bytes → R Bytes) (M : Nat)
+    (hev : ∀ a, (36 : Nat) ∉ a → a.length ≤ M → ev a ≠ .panic) (fuel : Nat) (args : Bytes)
+    (hf : args.length < fuel) (hM : args.length ≤ M) (h36 : (36 : Nat) ∉ args) :
+    evalArgs ev fuel args ≠ .panic := by
+  induction fuel generalizing args with
+  | zero => omega
+  | succ n ih =>
+    unfold evalArgs
+    split
+    · simp
+    · rename_i hne
+      obtain ⟨c1, c2⟩ := nextArg_clean args h36
+      have h1 := hev (nextArg args).1 c1 (by have := nextArg_fst_length args; omega)
+      have h3 := nextArg_length args hne
+      have h2 := ih (nextArg args).2 (by omega) (by omega) c2
+      split
+      · simp
+      · contradiction
+      · split
+        · simp
+        · contradiction
+        · simp
+
+/-! ### the tree walk, text by text -/
+
+/-- what the walk needs of the texts of the tree: substitution does not panic, and the argument loop on a substituted
+    argument text does not -/
+def Node.Safe (ev rv : Bytes → R Bytes) : Node → Prop
+  | .nil => True
+  | .operand _ v => rv v ≠ .panic
+  | .func _ _ args => rv args ≠ .panic ∧ ∀ T, rv args = .ok T → evalArgs ev (T.length + 1) T ≠ .panic
+  | .tree l r _ _ => l.Safe ev rv ∧ r.Safe ev rv
+
+theorem Node.safe_of_infix (ev rv : Bytes → R Bytes) (s : Bytes) (N : Nat)
+    (hop : ∀ v, v <:+: s → rv v ≠ .panic)
+    (hfn : ∀ a, a <:+: s → a.length < N → ∀ T, rv a = .ok T → evalArgs ev (T.length + 1) T ≠ .panic)
+    (n : Node) (hi : n.Infix s) (hl : n.ArgsLt N) : n.Safe ev rv := by
+  induction n with
+  | nil => simp [Node.Safe]
+  | operand un v => exact hop v hi
+  | func un name args => exact ⟨hop args hi, hfn args hi hl⟩
+  | tree l r op un ihl ihr => exact ⟨ihl hi.1 hl.1, ihr hi.2 hl.2⟩
+
+theorem evalNode_no_panic_safe (ev rv : Bytes → R Bytes) (n : Node) (hn : n.OK) (hs : n.Safe ev rv) :
+    evalNode ev rv n ≠ .panic := by
+  induction n with
+  | nil => simp [evalNode]
+  | operand un v =>
+    unfold evalNode
+    have : rv v ≠ .panic := hs
+    split
+    · simp
+    · contradiction
+    · simp
+  | func un name args =>
+    unfold evalNode
+    have hs' : rv args ≠ .panic ∧ ∀ T, rv args = .ok T → evalArgs ev (T.length + 1) T ≠ .panic := hs
+    have := hs'.1
+    split
+    · simp
+    · contradiction
+    · rename_i T hT
+      have := hs'.2 T hT
+      split
+      · simp
+      · contradiction
+      · simp
+  | tree l r op un ihl ihr =>
+    simp only [Node.OK] at hn
+    obtain ⟨hnl, hnr, hop⟩ := hn
+    have hs' : l.Safe ev rv ∧ r.Safe ev rv := hs
+    have h1 := ihl hnl hs'.1
+    have h2 := ihr hnr hs'.2
+    unfold evalNode
+    split
+    · simp
+    · contradiction
+    · split
+      · simp
+      · contradiction
+      · split
+        · rename_i hc
+          simp only [Bool.and_eq_true, Bool.not_eq_true'] at hc
+          have hop' := hop (Node.ne_nil_of_isNil_false _ hc.1) (Node.ne_nil_of_isNil_false _ hc.2)
+          split
+          · contradiction
+          · split
+            · simp
+            · split <;> simp
+        · split
+          · simp
+          · split
+            · simp
+            · split <;> simp
+
+/-- `evaluate` one level down, given the texts of the parsed tree are safe -/
+theorem evaluate_succ_no_panic (ops : List Op) (fns : List Bytes) (hne : SymsNonempty ops)
+    (resolve : Option (Bytes → Bytes)) (d : Nat) (s : Bytes)
+    (h : ∀ top, parseTop ops fns s = .ok (some top) →
+      top.Safe (evaluate ops fns resolve d) (replaceVariables resolve)) :
+    evaluate ops fns resolve (d + 1) s ≠ .panic := by
+  unfold evaluate
+  have hp := parseTop_no_panic ops fns hne s
+  cases hpt : parseTop ops fns s with
+  | err => simp
+  | panic => exact absurd hpt hp
+  | ok o =>
+    cases o with
+    | none => simp
+    | some top =>
+      simp only []
+      have := evalNode_no_panic_safe _ _ top (parseTop_ok_node ops fns s top hpt) (h top hpt)
+      split
+      · simp
+      · contradiction
+      · simp
+      · simp
+
+/-- **texts without `$`: `Evaluate` never panics, whatever the resolver is** (there is nothing to resolve: the parsed
+    tree holds pieces of the text only, so every nested evaluation is on a strictly shorter text without `$`) -/
+theorem evaluate_no_panic_closed (ops : List Op) (fns : List Bytes) (hne : SymsNonempty ops)
+    (resolve : Option (Bytes → Bytes)) :
+    ∀ (d : Nat) (s : Bytes), (36 : Nat) ∉ s → s.length < d → evaluate ops fns resolve d s ≠ .panic := by
+  intro d
+  induction d with
+  | zero => intro s _ hs; omega
+  | succ d ih =>
+    intro s h36 hs
+    apply evaluate_succ_no_panic ops fns hne
+    intro top hpt
+    refine Node.safe_of_infix _ _ s s.length ?_ ?_ top (parseTop_infix ops fns s top hpt)
+      (parseTop_argsLt ops fns s top hpt)
+    · intro v hv
+      rw [replaceVariables_clean resolve v (fun hm => h36 (hv.subset hm))]
+      simp
+    · intro a ha hl T hT
+      have h36a : (36 : Nat) ∉ a := fun hm => h36 (ha.subset hm)
+      rw [replaceVariables_clean resolve a h36a] at hT
+      injection hT with hT
+      subst hT
+      exact evalArgs_no_panic_clean _ a.length (fun x hx hxl => ih x hx (by omega)) _ a (by omega)
+        (Nat.le_refl _) h36a
+
+/-- **resolvers whose answers hold no `$`**: when each variable name that occurs in `s` is answered with at most `K`
+    bytes more than `$name`, the substituted argument texts are shorter than `|s| * (K + 1) + 1` and hold no `$`, so
+    that nesting budget suffices -/
+theorem evaluate_no_panic_growth (ops : List Op) (fns : List Bytes) (hne : SymsNonempty ops)
+    (resolve : Option (Bytes → Bytes)) (K : Nat) (s : Bytes)
+    (hres : ∀ f, resolve = some f →
+      (∀ n, (36 : Nat) ∉ f n) ∧ (∀ n, n <:+: s → (f n).length ≤ n.length + 1 + K)) :
+    ∀ d, s.length * (K + 1) + 1 < d → evaluate ops fns resolve d s ≠ .panic := by
+  intro d hd
+  cases d with
+  | zero => omega
+  | succ d =>
+    apply evaluate_succ_no_panic ops fns hne
+    intro top hpt
+    have hsub : ∀ v, v <:+: s → ∀ f, resolve = some f →
+        (∀ n, (36 : Nat) ∉ f n) ∧ (∀ n, n <:+: v → (f n).length ≤ n.length + 1 + K) :=
+      fun v hv f hf => ⟨(hres f hf).1, fun n hn => (hres f hf).2 n (hn.trans hv)⟩
+    refine Node.safe_of_infix _ _ s s.length ?_ ?_ top (parseTop_infix ops fns s top hpt)
+      (parseTop_argsLt ops fns s top hpt)
+    · intro v hv
+      exact (replaceVariables_growth resolve K v (hsub v hv)).1
+    · intro a ha _ T hT
+      obtain ⟨hT36, hTl⟩ := (replaceVariables_growth resolve K a (hsub a ha)).2 T hT
+      have h1 : a.count 36 * K ≤ a.length * K := Nat.mul_le_mul_right K List.count_le_length
+      have h2 : a.length * (K + 1) ≤ s.length * (K + 1) := Nat.mul_le_mul_right (K + 1) ha.length_le
+      have h3 : a.length * (K + 1) = a.length * K + a.length := Nat.mul_succ _ _
+      exact evalArgs_no_panic_clean _ T.length
+        (fun x hx hxl => evaluate_no_panic_closed ops fns hne resolve d x hx (by omega)) _ T (by omega)
+        (Nat.le_refl _) hT36
+
+/-- the largest of `g 0, …, g (n-1)` -/
+def maxBelow (g : Nat → Nat) : Nat → Nat
+  | 0 => 0
+  | n + 1 => max (g n) (maxBelow g n)
+
+theorem le_maxBelow (g : Nat → Nat) (n i : Nat) (h : i < n) : g i ≤ maxBelow g n := by
+  induction n with
+  | zero => omega
+  | succ n ih =>
+    unfold maxBelow
+    by_cases e : i = n
+    · subst e; exact Nat.le_max_left _ _
+    · exact Nat.le_trans (ih (by omega)) (Nat.le_max_right _ _)
+
+/-- the longest answer of `f` to a contiguous piece of `s` -/
+def maxAnswer (f : Bytes → Bytes) (s : Bytes) : Nat :=
+  maxBelow (fun i => maxBelow (fun j => (f ((s.drop i).take j)).length) (s.length + 1)) (s.length + 1)
+
+theorem le_maxAnswer (f : Bytes → Bytes) (s n : Bytes) (h : n <:+: s) : (f n).length ≤ maxAnswer f s := by
+  obtain ⟨a, b, e⟩ := h
+  subst e
+  have e1 : ((a ++ n ++ b).drop a.length).take n.length = n := by simp
+  have l1 : a.length < (a ++ n ++ b).length + 1 := by simp; omega
+  have l2 : n.length < (a ++ n ++ b).length + 1 := by simp; omega
+  unfold maxAnswer
+  refine Nat.le_trans ?_ (le_maxBelow _ _ a.length l1)
+  refine Nat.le_trans ?_ (le_maxBelow _ _ n.length l2)
+  rw [e1]
+  exact Nat.le_refl _
+
+/-- **termination for every resolver whose answers hold no `$`**: some finite nesting budget always suffices (the
+    text has finitely many pieces, so the answers to its variable names have a longest one) -/
+theorem evaluate_terminates (ops : List Op) (fns : List Bytes) (hne : SymsNonempty ops)
+    (resolve : Option (Bytes → Bytes)) (h36 : ∀ f, resolve = some f → ∀ n, (36 : Nat) ∉ f n) (s : Bytes) :
+    ∃ D, ∀ d, D ≤ d → evaluate ops fns resolve d s ≠ .panic := by
+  cases resolve with
+  | none =>
+    refine ⟨s.length * (0 + 1) + 2, fun d hd => ?_⟩
+    exact evaluate_no_panic_growth ops fns hne none 0 s (fun f hf => by cases hf) d (by omega)
+  | some f =>
+    refine ⟨s.length * (maxAnswer f s + 1) + 2, fun d hd => ?_⟩
+    refine evaluate_no_panic_growth ops fns hne (some f) (maxAnswer f s) s ?_ d (by omega)
+    intro g hg
+    injection hg with hg
+    subst hg
+    refine ⟨h36 f rfl, fun n hn => ?_⟩
+    have := le_maxAnswer f s n hn
+    omega
 
 end Eval
